@@ -3,7 +3,7 @@ namespace Theo { struct Instruction; struct BreakPoint; }
 namespace std {
 template<> struct __cap<Theo::Instruction> { static constexpr int v = VM_CAPS_L; };
 template<> struct __cap<int> { static constexpr int v = VM_CAPS_DW; };
-template<> struct __mcap<Theo::BreakPoint, vector<int>> { static constexpr int v = 1; };
+template<> struct __mcap<Theo::BreakPoint, vector<int>> { static constexpr int v = VM_CAPS_NSITE; };
 template<> struct __mcap<int, Theo::BreakPoint> { static constexpr int v = VM_CAPS_NSITE; };
-template<> struct __scap<Theo::BreakPoint> { static constexpr int v = 1; };
+template<> struct __scap<Theo::BreakPoint> { static constexpr int v = VM_CAPS_NSITE; };
 }
